@@ -279,6 +279,28 @@ def instrument_package(pkg_dir: str, rescan: bool = False) -> int:
     return n
 
 
+_events_off = False
+
+
+def pause_events() -> None:
+    """Beyond the step cap nothing is pre-empted any more: stop paying for the callbacks."""
+    global _events_off
+    mon = sys.monitoring
+    for code in _instrumented:
+        mon.set_local_events(MON_TOOL, code, 0)
+    _events_off = True
+
+
+def resume_events() -> None:
+    global _events_off
+    if _events_off:
+        mon = sys.monitoring
+        ev = mon.events
+        for code in _instrumented:
+            mon.set_local_events(MON_TOOL, code, ev.LINE | ev.PY_RETURN | ev.PY_YIELD)
+        _events_off = False
+
+
 def set_opcode_events(on: bool) -> None:
     mon = sys.monitoring
     ev = mon.events
@@ -470,6 +492,7 @@ class Scheduler:
         self.log.add(tid, site)
         if self.steps > self.max_steps:
             self.capped = True
+            pause_events()
             return
         nxt = self.policy.choose(self, tid)
         if nxt != tid:
@@ -525,6 +548,7 @@ class Scheduler:
     # -- tracing --------------------------------------------------------------------------------
     def _install_monitoring(self) -> None:
         instrument_package(self.pkg_dir)
+        resume_events()
         if self.opcode:
             set_opcode_events(True)
 
